@@ -218,6 +218,16 @@ class Opener:
         self.evals += 1
         self.bump('ro-open')
         before = fs.image()
+        self.fam = ''
+        if 'stale' in label and self.passes_documented_sanity(fs):
+            self.fam = 'stale-index-passes-sanity/'
+        try:
+            return self._read_only(fs, before, label, model, writer)
+        finally:
+            self.fam = ''
+
+    def _read_only(self, fs, before, label, model, writer):
+        from ZODB.FileStorage import FileStorage
         try:
             ro = FileStorage(PATH, read_only=True)
         except Exception as e:      # noqa: B902
@@ -370,6 +380,10 @@ def run(case):
         # -- read-only on the clean file -------------------------------
         op_.read_only(final, 'clean final', model)
         op_.read_only(with_index(final, None), 'clean final noindex', model)
+        # ... and with unreadable / stale indexes: still nothing modified
+        ivs = index_variants(versions, r, 'quick')[1:]
+        for label, b in (r.sample(ivs, min(5, len(ivs))) if ivs else ()):
+            op_.read_only(with_index(final, b), 'final ' + label, model)
         # -- crash images ------------------------------------------------
         if log:
             rep = simfs.Replayer(snap0, log)
